@@ -72,7 +72,7 @@ def _check(case):
 def _shrink(case):
     ops = list(case["ops"])
     i = 0
-    while i < len(ops):
+    while i < len(ops) and not core.search_expired():
         cand = dict(case, ops=ops[:i] + ops[i + 1 :])
         if cand["ops"] and _check(cand):
             ops = cand["ops"]
@@ -89,6 +89,8 @@ def run(tier, seed, deep, hints):
     findings, evals, distinct, sample = [], 0, set(), None
     seen = set()
     for _ in range(n):
+        if core.search_expired():
+            break
         case = _gen(rng)
         evals += 1
         distinct.add(repr(case))
